@@ -150,6 +150,26 @@ macro_rules! typed_dispatch {
     };
 }
 
+macro_rules! override_dispatch {
+    ($b:expr, $ty:expr, $name:expr, $ov:expr) => {
+        match $ty {
+            "()" => $b.add_datum_override::<(), _>($name, $ov),
+            "u8" => $b.add_datum_override::<u8, _>($name, $ov),
+            "u16" => $b.add_datum_override::<u16, _>($name, $ov),
+            "u32" => $b.add_datum_override::<u32, _>($name, $ov),
+            "u64" => $b.add_datum_override::<u64, _>($name, $ov),
+            "u128" => $b.add_datum_override::<u128, _>($name, $ov),
+            "usize" => $b.add_datum_override::<usize, _>($name, $ov),
+            "[u8 ; 3]" => $b.add_datum_override::<[u8; 3], _>($name, $ov),
+            "[u16 ; 3]" => $b.add_datum_override::<[u16; 3], _>($name, $ov),
+            "Option < u32 >" => $b.add_datum_override::<Option<u32>, _>($name, $ov),
+            "String" => $b.add_datum_override::<String, _>($name, $ov),
+            "Vec < () >" => $b.add_datum_override::<Vec<()>, _>($name, $ov),
+            other => panic!("harness: no override dispatch for {}", other),
+        }
+    };
+}
+
 impl Sut {
     fn add(&mut self, r: &AddReq) -> Result<usize, String> {
         let id = match self {
@@ -175,6 +195,10 @@ impl Sut {
                         allow_uninit: Some(r.uninit),
                     },
                 ),
+                // partial overrides: what is left unspecified must come from the resolver, not from the host
+                "ovr-n" => override_dispatch!(b, r.ty.as_str(), r.name.clone(), DatumDefinitionOverride { type_name: None, size: None, align: None, allow_uninit: None }),
+                "ovr-s" => override_dispatch!(b, r.ty.as_str(), r.name.clone(), DatumDefinitionOverride { type_name: None, size: Some(r.size), align: None, allow_uninit: Some(r.uninit) }),
+                "ovr-a" => override_dispatch!(b, r.ty.as_str(), r.name.clone(), DatumDefinitionOverride { type_name: None, size: None, align: Some(r.align), allow_uninit: Some(r.uninit) }),
                 "typed" => match r.ty.as_str() {
                     "String" => b.add_datum::<String, _>(r.name.clone()),
                     "Vec < () >" => b.add_datum::<Vec<()>, _>(r.name.clone()),
@@ -522,6 +546,12 @@ impl<'a> Session<'a> {
         match res {
             Ok(Ok(id)) => {
                 self.out.emit(&line, &format!("ok {}", id));
+                // C18 oracle: what was recorded is what the resolver / the explicit override supplied
+                if let Some((_, sz, al)) = self.sut.as_ref().unwrap().layout(id) {
+                    if sz != r.size || al != r.align {
+                        self.ora.hit("C18", format!("entry point `{}` recorded {}/{} for datum {} of type {}, the resolver / override supplied {}/{}", r.entry, sz, al, id, r.ty, r.size, r.align));
+                    }
+                }
                 self.ora.on_add(id, &r.name);
                 self.n_ids = self.n_ids.max(id + 1);
                 Some(id)
@@ -847,9 +877,17 @@ fn gen_add(rng: &mut Rng, table: usize, native: bool, name: String, zst_heavy: b
             let copyable: Vec<_> = tbl.iter().filter(|t| t.3).collect();
             let (n, s, a, _) = **rng.pick(&copyable);
             AddReq { name, ty: n.to_string(), size: s, align: a, uninit: true, entry: "uninit" }
-        } else if k < 94 {
+        } else if k < 91 {
             let (n, s, a, u) = *rng.pick(&tbl);
             AddReq { name, ty: n.to_string(), size: s, align: a, uninit: u, entry: "dynamic" }
+        } else if k < 96 {
+            let (n, s, a, _) = *rng.pick(&tbl);
+            let (s2, a2) = *rng.pick(&SHAPES);
+            match rng.below(3) {
+                0 => AddReq { name, ty: n.to_string(), size: s, align: a, uninit: false, entry: "ovr-n" },
+                1 => AddReq { name, ty: n.to_string(), size: s2, align: a, uninit: rng.chance(1, 2), entry: "ovr-s" },
+                _ => AddReq { name, ty: n.to_string(), size: s, align: a2, uninit: rng.chance(1, 2), entry: "ovr-a" },
+            }
         } else {
             let (s, a) = *rng.pick(&SHAPES);
             AddReq { name, ty: format!("T{}x{}", s, a), size: s, align: a, uninit: rng.chance(1, 2), entry: "copy" }
@@ -1049,7 +1087,7 @@ fn file_histories(path: &str, out: &mut Out, stats: &mut Stats) {
         match toks[0] {
             "add" => {
                 let entry: &'static str = match toks.get(6).cloned().unwrap_or("override") {
-                    "typed" => "typed", "uninit" => "uninit", "dynamic" => "dynamic", "copy" => "copy", "generic" => "generic", _ => "override",
+                    "typed" => "typed", "uninit" => "uninit", "dynamic" => "dynamic", "copy" => "copy", "generic" => "generic", "ovr-n" => "ovr-n", "ovr-s" => "ovr-s", "ovr-a" => "ovr-a", _ => "override",
                 };
                 let r = AddReq { name: toks[1].into(), ty: toks[2].replace('_', " "), size: toks[3].parse().unwrap(), align: toks[4].parse().unwrap(), uninit: toks[5] == "1", entry };
                 s.add(&r);
